@@ -659,7 +659,7 @@ impl WorldA {
                             .or_else(|| v.iter().find(|&&x| c.msgs[x].obtained == 0));
                         if let Some(&idx) = cand {
                             c.msgs[idx].obtained += 1;
-                            if c.msgs[..idx].iter().any(|m| m.obtained == 0) {
+                            if idx < 4096 && c.msgs[..idx].iter().any(|m| m.obtained == 0) {
                                 obs.count("probe.unordered_obtained_ahead_of_older");
                             }
                         } else {
